@@ -553,3 +553,100 @@ def replay_fstate(ctx, res):
             except Exception as ex:
                 done[fam] = {"reproduced": False, "outcome": "replayer error: %r" % (ex,)}
         o.replay = done[fam]
+
+
+MNULL_SCRIPT = r'''
+import sys, importlib
+fam = %(fam)r
+M = importlib.import_module("BTrees._%%sBTree" %% fam)
+bad = []
+key = (lambda k: k) if fam[0] != "f" else (lambda k: bytes([0, k]))
+val = %(valexpr)s
+class T(getattr(M, fam + "BTree")):
+    max_leaf_size = 2; max_internal_size = 4
+def build():
+    t = T()
+    for k in range(100, 110):
+        t[key(k)] = val(k)
+    return t
+# 1. arguments whose protocol methods fail at every stage (an exception is fine, a crash is not)
+class ItemsNotIterable:
+    def items(self): return 5
+class ItemsRaises:
+    def items(self): raise ValueError("x")
+class IterRaises:
+    def __iter__(self): raise ValueError("x")
+    def __len__(self): return 1
+    def __getitem__(self, i): raise ValueError("x")
+for kind in ("BTree", "Bucket"):
+    for arg in (ItemsNotIterable(), ItemsRaises(), IterRaises(), [1], [(1,)], 5, None):
+        c = getattr(M, fam + kind)()
+        try:
+            c.update(arg)
+        except Exception:
+            pass
+for kind in ("TreeSet", "Set"):
+    for arg in (IterRaises(), 5, None):
+        c = getattr(M, fam + kind)()
+        try:
+            c.update(arg)
+        except Exception:
+            pass
+# 2. CPython's allocator failing at the n-th allocation inside an operation: MemoryError or the result, nothing else
+try:
+    import _testcapi
+except ImportError:
+    _testcapi = None
+if _testcapi is not None:
+    ops = {"__getstate__": lambda t: t.__getstate__(), "keys": lambda t: list(t.keys()), "items": lambda t: list(t.items()),
+           "values": lambda t: list(t.values()), "minKey": lambda t: t.minKey(), "repr": lambda t: repr(t),
+           "byValue": (lambda t: t.byValue(val(100))) if fam[1] in "IFLUQ" else (lambda t: None),
+           "get": lambda t: t.get(key(105)), "pop": lambda t: t.pop(key(105), None), "setdefault": lambda t: t.setdefault(key(120), val(1))}
+    for name, op in ops.items():
+        for n in range(0, 25):
+            t = build()
+            try:
+                _testcapi.set_nomemory(n, n + 1)
+                try:
+                    op(t)
+                finally:
+                    _testcapi.remove_mem_hooks()
+            except MemoryError:
+                pass
+            except SystemError as e:
+                bad.append("%%sBTree.%%s with allocation %%d failing: SystemError: %%s" %% (fam, name, n, e)); break
+            except Exception:
+                pass
+print("\n".join(bad[:8]) or "no violation")
+sys.exit(1 if bad else 0)
+'''
+
+
+def replay_mnull(ctx, res):
+    """M-NULL has no input of its own: the replay offers arguments whose protocol methods fail at every stage and lets
+    CPython's allocator fail at the n-th allocation inside a dozen operations (_testcapi.set_nomemory); a crash of the
+    interpreter or a SystemError counts as reproduced."""
+    import re
+    from lib import build
+    done = {}
+    for o in res.obligations:
+        if o.status not in ("refuted", "unknown") or not o.name.startswith("M-NULL"):
+            continue
+        fm = re.match(r"\[(\w\w)\]", o.detail or "")
+        if not fm:
+            continue
+        fam = fm.group(1)
+        if fam not in done:
+            valexpr = {"O": "(lambda k: 'v%d' % k)", "F": "(lambda k: k + 0.5)", "s": "(lambda k: b'v%05d' % k)"}.get(fam[1], "(lambda k: k * 7)")
+            script = MNULL_SCRIPT % {"fam": fam, "valexpr": valexpr}
+            try:
+                bdir = build.build((fam,))
+                e = dict(os.environ, PYTHONPATH=bdir + os.pathsep + VERIF)
+                p = subprocess.run([PY, "-c", script], env=e, capture_output=True, text=True, timeout=300)
+                crashed = p.returncode < 0
+                done[fam] = {"reproduced": p.returncode == 1 or crashed,
+                             "outcome": ("the interpreter was killed by signal %d while running the fault probes: " % -p.returncode if crashed else "") +
+                             (p.stdout + p.stderr)[-1500:], "script": script, "families": [fam]}
+            except Exception as ex:
+                done[fam] = {"reproduced": False, "outcome": "replayer error: %r" % (ex,)}
+        o.replay = done[fam]
